@@ -1,6 +1,6 @@
 (* C04 — Serialising a template back to source preserves its meaning.  Property theorems only. *)
 From Coq Require Import String.
-From LiquidVerif Require Import Prelude PyPrims Cond CondPrint Cond_Proofs CondParen CondParen_Proofs StrLit StrLit_Proofs TagTree TagTree_Proofs.
+From LiquidVerif Require Import Prelude PyPrims Cond CondPrint Cond_Proofs CondParen CondParen_Proofs StrLit StrLit_Proofs TagTree TagTree_Proofs PathSyntax PathSyntax_Proofs.
 Local Open Scope string_scope. Local Open Scope list_scope.
 
 (* for EVERY condition tree (any depth, any mix of and / or / not, comparisons, membership tests and groups) the text that
@@ -31,6 +31,18 @@ Theorem C04_string_literal_roundtrip : forall s rest,
   has SQ s && has DQ s = false -> scan_string (quote_string s ++ rest) = Some (s, rest).
 Proof. exact quote_scan. Qed.
 Print Assumptions C04_string_literal_roundtrip.
+
+(* paths: for every path (names of any spelling, integer indexes, nested paths to any depth) the tokens Path.__str__ writes are
+   read back by Path.parse (strict mode) as the same path, whatever non-path token follows; RE_PROPERTY is a parameter *)
+Theorem C04_path_roundtrip : forall is_prop p rest, p <> [] -> wfl p = true -> rest_ok rest ->
+  parse_path (S (length (print_path is_prop p ++ rest))) [] (print_path is_prop p ++ rest) = Ok (p, rest).
+Proof. exact path_roundtrip. Qed.
+Print Assumptions C04_path_roundtrip.
+
+Theorem C04_old_path_refuted : let p := [SNested [SName [120%N]]] in
+  parse_path 5 [] (print_path_old std_is_prop p) = Ok ([SName [120%N]], []) /\ wfl p = true.
+Proof. exact path_old_refuted. Qed.
+Print Assumptions C04_old_path_refuted.
 
 (* structure: for every tree of text, output statements, raw and comment blocks, inline tags and block tags with their
    sections (nested to any depth) that is well formed for a coherent tag register, parsing the serialisation gives the tree back *)
